@@ -551,6 +551,34 @@ def r8_exact_filters(ctx, svc: Svc) -> None:
                     'range matches also select rows of sibling resources (e.g. study `tune_1` vs `tune_10`, '
                     'LIKE wildcards `_` `%`), which the RAM backend (exact dict keys) never does',
                     construct=a, func=m.qualname)
+  # result-shaping clauses: the RAM backend lists in insertion (= increasing id) order and never truncates
+  col_types: Dict[str, str] = {}
+  for x in ast.walk(svc.sql.node):
+    if isinstance(x, ast.Call) and (dotted(x.func) or '').endswith('Column') and len(x.args) >= 2 and isinstance(x.args[0], ast.Constant):
+      col_types.setdefault(str(x.args[0].value), (dotted(x.args[1]) or unparse(x.args[1], 0)).rsplit('.', 1)[-1])
+  if len(col_types) < 8:
+    raise AnalysisError(f'only {len(col_types)} column definitions found in SQLDataStore')
+  for m in svc.sql.methods.values():
+    for c in flow.calls_in(m.node):
+      if not isinstance(c.func, ast.Attribute):
+        continue
+      if c.func.attr in ('order_by',):
+        for a in c.args:
+          col = None
+          for x in ast.walk(a):
+            if isinstance(x, ast.Attribute) and isinstance(x.value, ast.Attribute) and x.value.attr == 'c':
+              col = x.attr
+          typ = col_types.get(col or '', '?')
+          ctx.check(typ.upper() in ('INTEGER', 'INT', 'BIGINT'), 'R8', f'SQL.{m.name}: order_by({col})', a,
+                    'ordered by an integer id column (the order the RAM backend lists in)',
+                    f'rows are ordered by the {typ} column `{col}`: names sort lexicographically (…/trials/10 before …/trials/2), '
+                    'so listings - and everything that pops from them, e.g. the REQUESTED pool of SuggestTrials - differ from the '
+                    'RAM backend, which lists in creation order', construct=f'order_by:{col}', func=m.qualname)
+      if c.func.attr in ('limit', 'offset', 'distinct', 'group_by') and any(
+          isinstance(x, ast.Attribute) and x.attr.endswith('_table') for x in ast.walk(c.func.value)):
+        ctx.bad('R8', f'SQL.{m.name}: .{c.func.attr}(...)', c,
+                f'the query result is shaped by .{c.func.attr}(): the RAM backend returns every matching row exactly once',
+                construct=f'shape:{c.func.attr}', func=m.qualname)
 
 
 _RAM = 'vizier/_src/service/ram_datastore.py'
@@ -590,5 +618,11 @@ VARIANTS = [
     Variant('sql-list-trials-prefix', _SQL,
             '    lq = lq.where(self._trials_table.c.owner_id == study_resource.owner_id)\n    lq = lq.where(self._trials_table.c.study_id == study_resource.study_id)',
             '    lq = lq.where(self._trials_table.c.trial_name.startswith(study_name))', rule='R8'),
+    Variant('sql-list-trials-order-by-name', _SQL,
+            '    lq = lq.where(self._trials_table.c.study_id == study_resource.study_id)\n\n    with self._lock:\n      if not self._connection.execute(eq).fetchone()[0]:\n        raise NotFoundError(\'Study name %s does not exist.\' % study_name)',
+            '    lq = lq.where(self._trials_table.c.study_id == study_resource.study_id)\n    lq = lq.order_by(self._trials_table.c.trial_name)\n\n    with self._lock:\n      if not self._connection.execute(eq).fetchone()[0]:\n        raise NotFoundError(\'Study name %s does not exist.\' % study_name)', rule='R8'),
+    Variant('benign-sql-list-trials-order-by-id', _SQL,
+            '    lq = lq.where(self._trials_table.c.study_id == study_resource.study_id)\n\n    with self._lock:\n      if not self._connection.execute(eq).fetchone()[0]:\n        raise NotFoundError(\'Study name %s does not exist.\' % study_name)',
+            '    lq = lq.where(self._trials_table.c.study_id == study_resource.study_id)\n    lq = lq.order_by(self._trials_table.c.trial_id)\n\n    with self._lock:\n      if not self._connection.execute(eq).fetchone()[0]:\n        raise NotFoundError(\'Study name %s does not exist.\' % study_name)', expect='silent'),
     Variant('benign-ram-rename', _RAM, 'trial_protos', 'trial_map', expect='silent', count=17),
 ]
